@@ -11,6 +11,7 @@ PROP = {
         "Xt.Props.Json.json_spellings_partial",
         # JSON <-> MessagePack end to end (composition of the Json, MsgpackCodec and transcoder models)
         "Xt.Props.Fidelity.json_to_msgpack_fidelity",
+        "Xt.Props.Fidelity.json_to_msgpack_fidelity_of_wf",
         "Xt.Props.Fidelity.json_to_msgpack_fidelity_documents",
         "Xt.Props.Fidelity.json_to_msgpack_fidelity_floats",
         "Xt.Props.Fidelity.msgpack_to_json_fidelity",
